@@ -56,9 +56,11 @@ def run(ctx, replay):
         "samples": [s for sm in sums for s in sm.get("samples", [])][:4],
         "evaluations": n,
         "distinct_nontrivial": sum(1 for c in cases if c["kind"] != "none"),
-        "rule": "TLC: 4 step envs x 5 plugin lists x 4 matrices x 4 pipeline envs x 4 key kinds (EdDSA, ES512, PS512 JWKs, ES256 crypto.Signer) x "
-                "43 single-point mutation kinds (33 semantic, 10 non-semantic), inapplicable combinations dropped; quick tier replays a seeded "
-                "sample with every (kind, key kind) pair at least 40 times, thorough replays all. Non-trivial = a real mutation (kind != none).",
+        "rule": "TLC: step envs x plugin lists (map, deep, scalar and null configs, one or two plugins) x matrices (none, empty, list, named "
+                "single dimension, adjustments, an API-edited ordered map inside an adjustment) x pipeline envs x 4 key kinds (EdDSA, ES512, "
+                "PS512 JWKs, ES256 crypto.Signer) x %d single-point mutation kinds (content, verification env, field list, algorithm, value incl. "
+                "splice / bit flip / attached payload, key set), inapplicable combinations dropped; quick tier replays a seeded sample with "
+                "every (kind, key kind) pair 40 times, thorough replays all. Non-trivial = a real mutation (kind != none)." % len(kinds),
         "exhaustive": thorough,
         "mutation_kinds": kinds,
         "accepted": sum(s.get("accepted", 0) for s in sums),
